@@ -131,14 +131,21 @@ impl InstructionGenerator {
 
         match expr {
             Expression::Variable(var_name, ..) => {
-                let linter_var_info: &VariableInfo = self
-                    .linter_names
-                    .get_resolved_variable_info(&self.current_subprogram, &var_name);
+                // the hidden variables of the generator (their names contain a dash, which no
+                // name written in a program can) are local and unknown to the linter
+                let shared = if var_name.as_bare_name().to_string().contains('-') {
+                    false
+                } else {
+                    let linter_var_info: &VariableInfo = self
+                        .linter_names
+                        .get_resolved_variable_info(&self.current_subprogram, &var_name);
+                    linter_var_info.shared
+                };
 
                 self.push(
                     Instruction::VarPathName(RootPath {
                         name: var_name,
-                        shared: linter_var_info.shared,
+                        shared,
                     }),
                     pos,
                 );
